@@ -36,3 +36,5 @@
 ; a key that extends a prefix of at least two components has that prefix's first component
 (assert (forall ((k Str) (h Str) (t SL)) (! (=> (and (nozero h) (not ((_ is snil) t)) (hasprefix k (bjoin (scons h t) (bset (bzero 1) 0 0)))) (= (firstcomp k) h))
    :pattern ((hasprefix k (bjoin (scons h t) (bset (bzero 1) 0 0)))))))
+; label carried by a serialised vertex (named result of proto.Unmarshal on a gripql.Vertex)
+(declare-fun vlabel (Str) Str)
